@@ -1,7 +1,35 @@
-(* C04 — property theorems (being extended; lexer containment lemmas live in ngx/LexerProofs.v). *)
-From Coq Require Import List String.
-From NGF Require Import lib.Str.
+(* C04 — property theorems. A user-controlled string that stays within its character class cannot change the
+   structure of the generated configuration: it appears verbatim inside the words the template puts it in and
+   nowhere else, and no token starts or ends because of it. What the validators admit is tied to these classes by the
+   harness (every accepted value of every string leaf is classified); hostile values are handled by C04/Check.v. *)
+From Coq Require Import List String Ascii Bool.
+From NGF Require Import lib.Str ngx.Lexer ngx.Tmpl ngx.SymLex ngx.SymLexProofs ngx.TmplProofs ngx.TmplTheorems.
 Import ListNotations.
 
-Theorem C04_string_roundtrip : forall l, chars_of (string_of l) = l.
-Proof. exact chars_of_string_of. Qed.
+Theorem C04_no_injection_within_classes :
+  forall (t : list node) (d : value) (cls : nat -> bool) (chunks : list chunk),
+    run t d = Some chunks ->
+    forall sg : nat -> string,
+      (forall id, sg id <> ""%string) ->
+      (forall id, mem_string (sg id) (consts_of t) = false) ->
+      forallb (sym_ok (fun id => chars_of (sg id))) (syms_cls cls chunks) = true ->
+      run t (fill sg d) = Some (map (fill_chunk sg) chunks) /\
+      match slrun SLStart (syms_cls cls chunks) with
+      | RDone s toks =>
+          lrun LStart (chars_of (render sg chunks)) =
+          Some (inst_st (fun id => chars_of (sg id)) s, map (inst_tok (fun id => chars_of (sg id))) toks)
+      | RErr => lrun LStart (chars_of (render sg chunks)) = None
+      | RUnsupported => True
+      end.
+Proof. exact template_tokens_for_all_contents. Qed.
+
+(* the token skeleton (kinds and quoting) is the same for any two admissible contents *)
+Theorem C04_token_skeleton_independent_of_contents : forall xs sg1 sg2,
+  forallb (sym_ok sg1) xs = true -> forallb (sym_ok sg2) xs = true ->
+  slrun SLStart xs <> RUnsupported ->
+  match lex_chars (expand sg1 xs), lex_chars (expand sg2 xs) with
+  | Some t1, Some t2 => map tok_kind t1 = map tok_kind t2
+  | None, None => True
+  | _, _ => False
+  end.
+Proof. exact lex_independent_of_holes. Qed.
